@@ -1519,6 +1519,18 @@ class TextQueryBackend(Backend):
                 "case_sensitive_contains_expression"
             ]
 
+    def _cidr_converts_to_or(self, value: Any) -> bool:
+        """
+        Return True if the value is a CIDR expression that is rendered as OR-linked wildcard
+        patterns, i.e. there's no native CIDR expression and the patterns aren't folded into a
+        field-in-list expression.
+        """
+        return (
+            isinstance(value, SigmaCIDRExpression)
+            and self.cidr_expression is None
+            and not (self.convert_or_as_in and self.in_expressions_allow_wildcards)
+        )
+
     def compare_precedence(
         self,
         outer: ConditionItem | CorrelationConditionItem,
@@ -1561,8 +1573,11 @@ class TextQueryBackend(Backend):
             idx_inner = -1
         elif isinstance(
             inner, (ConditionFieldEqualsValueExpression, ConditionValueExpression)
-        ) and isinstance(inner.value, SigmaExpansion):
-            # Special case: Conditions containing a SigmaExpansion value convert into OR conditions
+        ) and (
+            isinstance(inner.value, SigmaExpansion) or self._cidr_converts_to_or(inner.value)
+        ):
+            # Special case: Conditions containing a SigmaExpansion value (or a CIDR value that is
+            # expanded into OR-linked wildcard patterns) convert into OR conditions
             inner_class: type[
                 ConditionItem
                 | CorrelationConditionItem
@@ -1709,7 +1724,10 @@ class TextQueryBackend(Backend):
         try:
             if arg.__class__ in self.precedence or (
                 isinstance(arg, (ConditionFieldEqualsValueExpression, ConditionValueExpression))
-                and isinstance(arg.value, SigmaExpansion)
+                and (
+                    isinstance(arg.value, SigmaExpansion)
+                    or self._cidr_converts_to_or(arg.value)
+                )
             ):  # group if AND or OR condition (or a value expansion, which converts to an OR) is negated
                 converted_group: str | DeferredQueryExpression | None = (
                     self.convert_condition_group(arg, state)
